@@ -87,7 +87,8 @@ def generateKey (X : Ctx α β) (rand : Option Script) : Outcome ((Bytes × Byte
   match rand with
   | none => .err
   | some sc => do
-    let (priv, sc') ← genKeyLoop X (sc.length + 1) sc
+    -- fuel: every successful ReadFull lowers `avail` by exactly 32 (the Go loop is unbounded)
+    let (priv, sc') ← genKeyLoop X (avail sc / 32 + 1) sc
     let pub ← scalarBaseMult X priv
     let pubBytes := Point.bytes X.C pub false
     if pubBytes.length ≠ 65 then .err else
@@ -152,7 +153,9 @@ def signLoop (X : Ctx α β) (priv e : Bytes) : Nat → Script → Outcome ((Byt
 def signHashed (X : Ctx α β) (sc : Script) (priv e : Bytes) : Outcome ((Bytes × Bytes) × Nat) := do
   let test ← testPrivateKey X priv
   if test ≠ 0 then .err else
-  let ((r, s), sc') ← signLoop X priv e (sc.length + 1) sc
+  -- fuel: every successful ReadFull lowers `avail` by exactly 32, so `avail sc / 32 + 1` iterations
+  -- always suffice (the Go loop is unbounded)
+  let ((r, s), sc') ← signLoop X priv e (avail sc / 32 + 1) sc
   pure ((r, s), avail sc - avail sc')
 
 /-- e = SM3(za ‖ msg) through Write, Write, Sum -/
